@@ -18,7 +18,7 @@
 //! Everything else is copied verbatim.
 
 use crate::printer::{norm, norm_str, OutLine, Printer, Splices};
-use crate::rewrite::{mark_fn_body, AtAnchor, Closures, ContinueElim, ForEach, Maps, Marker, OptDesugar, Rw};
+use crate::rewrite::{mark_fn_body, AtAnchor, BreakValue, Closures, ContinueElim, ForEach, Maps, Marker, OptDesugar, Rw};
 use quote::ToTokens;
 use serde_json::{json, Value as J};
 use std::collections::{HashMap, HashSet};
@@ -507,6 +507,9 @@ pub fn run(repo: &str, unit_path: &str, canary: bool) -> std::result::Result<Run
                     rewrites.extend(fe.log.drain(..).map(|mut l| { l["in"] = json!(target); l["file"] = json!(file); l }));
                 }
                 {
+                    let mut bv = BreakValue { log: vec![], n: 0 };
+                    bv.visit_block_mut(&mut body);
+                    rewrites.extend(bv.log.drain(..).map(|mut l| { l["in"] = json!(target); l["file"] = json!(file); l }));
                     let mut ce = ContinueElim { log: vec![] };
                     ce.visit_block_mut(&mut body);
                     rewrites.extend(ce.log.drain(..).map(|mut l| { l["in"] = json!(target); l["file"] = json!(file); l }));
@@ -702,6 +705,27 @@ pub fn run(repo: &str, unit_path: &str, canary: bool) -> std::result::Result<Run
                     l
                 }));
 
+                // `defspec`: a small pure function (no receiver, body one expression) whose meaning callers need: a spec function with
+                // the same parameters and the same body text is emitted in front of it and `ensures r == sp_def_<name>(args)` is added to
+                // its contract; the executable body is then verified against it (nothing is assumed). Used by check.py for helper
+                // functions that did not exist at the baseline commit (extract-method of a predicate).
+                if o.contains_key("defspec") {
+                    let one_expr = body.stmts.len() == 1 && matches!(&body.stmts[0], Stmt::Expr(_, None));
+                    if sig.receiver().is_some() || !one_expr {
+                        return Err(format!("defspec: {target} is not a receiver-free single-expression function"));
+                    }
+                    let mut names: Vec<String> = vec![];
+                    for a in sig.inputs.iter() {
+                        if let syn::FnArg::Typed(pt) = a {
+                            if let syn::Pat::Ident(pi) = &*pt.pat { names.push(pi.ident.to_string()); } else { return Err(format!("defspec: {target}: pattern parameter")); }
+                        }
+                    }
+                    let rt = match &sig.output { ReturnType::Type(_, t) => t.to_token_stream().to_string(), _ => return Err(format!("defspec: {target}: no return type")) };
+                    let pad0 = " ".repeat(indent);
+                    em.push_raw(&format!("{pad0}pub open spec fn sp_def_{}({}) -> {} {{ {} }}", name, sig.inputs.to_token_stream(), rt, body.stmts[0].to_token_stream()));
+                    contract.push(format!("{pad0}    ensures r == {}sp_def_{}({}),", if ty.is_empty() { "".to_string() } else { "Self::".to_string() }, name, names.join(", ")));
+                    rewrites.push(json!({"rule": "defspec", "in": target, "file": file, "src_line": src_line, "before": "function without contract", "after": "definitional contract: the result is the function's own body read as a specification"}));
+                }
                 // signature
                 let retvar = o.get("ret").cloned().unwrap_or_else(|| "r".to_string());
                 let newname = o.get("rename").cloned().unwrap_or_else(|| name.to_string());
